@@ -35,7 +35,7 @@ func (e *Exec) walkModel(st *State, name string, sig *types.Signature, args []Va
 	st.vars[werr] = Val{T: IntLit(0), GT: errT}
 	li.assigned[werr] = true
 	root := args[0]
-	skip := e.sc.Const("global:path/filepath.SkipDir", SInt)
+	skip := e.initialHeap("G:path/filepath.SkipDir", SInt)
 	e.sc.Assert(Not(Eq(skip, IntLit(0))))
 	env := func(s *State) *cenv { return e.loopEnv(s, x.Pos(), nil) }
 	f := e.top()
